@@ -41,7 +41,7 @@ type vfE8Lookupd struct {
 
 func vfE8NewLookupd(script []vfE8Poll) *vfE8Lookupd {
 	l := &vfE8Lookupd{script: script, reached: make(chan struct{}), release: make(chan struct{})}
-	ln, err := net.Listen("tcp", "127.0.0.1:0")
+	ln, err := vfListen()
 	if err != nil {
 		panic(err)
 	}
